@@ -227,6 +227,7 @@ type c16Req struct {
 	head   bool
 	delays []int  // microseconds before each mutation
 	tail   int    // microseconds after the last mutation before h returns
+	hj     int    // self kind: 1 ctx.Hijack after the TimeoutError* call, 2 also HijackSetNoResponse
 	pipe   bool   // sent together with the next request
 	closes string // "" | "hdr" (Connection: close) | "http10" (HTTP/1.0 without keep-alive): last request of its connection
 }
@@ -251,7 +252,7 @@ func (q c16Req) line(c, i int) string {
 	case "http10":
 		proto = "HTTP/1.0"
 	}
-	return fmt.Sprintf("%s %s?d=%s&t=%d %s\r\nHost: x\r\n%sX-Conn: %d\r\nX-Idx: %d\r\n\r\n", m, p, strings.Join(ds, "."), q.tail, proto, extra, c, i)
+	return fmt.Sprintf("%s %s?d=%s&t=%d&hj=%d %s\r\nHost: x\r\n%sX-Conn: %d\r\nX-Idx: %d\r\n\r\n", m, p, strings.Join(ds, "."), q.tail, q.hj, proto, extra, c, i)
 }
 
 const c16MaxConns = 4
@@ -312,6 +313,11 @@ func c16RunOne(t *testing.T, rng *rand.Rand, tw *vfTraceWriter, trNo int, cfg c1
 		mutate(ctx, c, i, delays, tail, 0)
 		running.Add(-1)
 	}
+	var hijackRan atomic.Int32
+	hijackFn := func(c net.Conn) {
+		hijackRan.Add(1)
+		c.Write([]byte("C16-HIJACK-BYTES H-0-0-9"))
+	}
 	wrapped := TimeoutWithCodeHandler(h, cfg.timeout, c16Msg, c16Code)
 	handler := func(ctx *RequestCtx) {
 		if string(ctx.Path()) != "/self" {
@@ -357,6 +363,16 @@ func c16RunOne(t *testing.T, rng *rand.Rand, tw *vfTraceWriter, trNo int, cfg c1
 				foreign = append(foreign, other)
 			}
 		}
+		// after the TimeoutError* call the handler may also ask for the connection to be hijacked (with or
+		// without HijackSetNoResponse): like every ctx modification after the call this must be ignored -
+		// the client gets exactly the timeout response and the connection goes on serving requests
+		switch ctx.QueryArgs().GetUintOrZero("hj") {
+		case 1:
+			ctx.Hijack(hijackFn)
+		case 2:
+			ctx.Hijack(hijackFn)
+			ctx.HijackSetNoResponse(true)
+		}
 		if len(delays) > 0 { // the first write after the call happens before the handler returns
 			mutate(ctx, c, i, delays[:1], 0, 0)
 			delays = delays[1:]
@@ -390,6 +406,7 @@ func c16RunOne(t *testing.T, rng *rand.Rand, tw *vfTraceWriter, trNo int, cfg c1
 			q := c16Req{kind: "wrapped", head: rng.Intn(6) == 0, pipe: rng.Intn(4) == 0 && !cfg.disableKeepalive}
 			if rng.Intn(6) == 0 {
 				q.kind = "self"
+				q.hj = []int{0, 1, 2}[rng.Intn(3)]
 			}
 			nw := rng.Intn(4) // 0..3 mutations
 			for k := 0; k < nw; k++ {
@@ -597,6 +614,9 @@ func c16RunOne(t *testing.T, rng *rand.Rand, tw *vfTraceWriter, trNo int, cfg c1
 		if len(s.concurrencyCh) == 0 && running.Load() == 0 && ended == nconns {
 			break
 		}
+		if hijackRan.Load() > 0 {
+			break // a hijacked connection never ends its serve loop the regular way; judged below
+		}
 		if time.Now().After(dl) {
 			if running.Load() == 0 && ended == nconns {
 				// every wrapped handler returned long ago, yet its token was never given back
@@ -627,6 +647,9 @@ func c16RunOne(t *testing.T, rng *rand.Rand, tw *vfTraceWriter, trNo int, cfg c1
 		vfInfra("c16: " + rec.bad)
 	}
 	// direct checks (black box)
+	if hijackRan.Load() > 0 {
+		return rec.nev, nreqTotal, "hijack-after-timeout-honoured", fmt.Sprintf("%d hijack handler(s) registered by a handler after its TimeoutError* call were run: the connection was taken away instead of serving further requests", hijackRan.Load())
+	}
 	if windup != "" {
 		return rec.nev, nreqTotal, "token-leak", windup
 	}
